@@ -108,7 +108,7 @@ def custom(ctx):
 
 
 PARTS = {
-    "C15": dict(coq_props=["Properties_C15"],
+    "C15": dict(coq_props=["Properties_C15", "Properties_C15_src"],
                 files=["src/varintAdaptive.c", "src/varintFOR.c", "src/varintPFOR.c", "src/varintFloat.c",
                        "src/varintDict.c", "src/varintBitmap.c", "src/varintRLE.c", "src/varintBP128.c"],
                 rule="every encoder/decoder case of the array/adaptive/float/bitmap parts executed in three histories "
@@ -117,5 +117,7 @@ PARTS = {
                 custom=custom,
                 assumptions=["PARTIAL: residue-independence of the C code is observed (poison patterns, histories, "
                              "memcheck), not proved; the list of histories is the one exercised per run"],
-                trusted_base=["glibc MALLOC_PERTURB_, valgrind 3.19 (thorough)"]),
+                trusted_base=["glibc MALLOC_PERTURB_, valgrind 3.19 (thorough)",
+                              "Properties_C15_src.v: gen/c2coq.py + coq/theories/CSem.v (the rendering of src/varintTagged.c "
+                              "about which 'never undefined, no global read' is proved)"]),
 }
